@@ -42,6 +42,11 @@ impl Scratch {
     pub fn path(&self, name: &str) -> PathBuf {
         self.dir.join(name)
     }
+    /// a legal but awkward file name (double quote, blank, hash, non-ASCII): tools must not let
+    /// the NAME of a file leak into the meaning of what they write
+    pub fn awkward(name: &str) -> String {
+        format!("aw\"k ward #\u{e9} {}", name)
+    }
     /// a path at which a LONGER file already exists: tools that write an output file must
     /// replace it, not overwrite its beginning
     pub fn stale(&self, name: &str) -> PathBuf {
